@@ -72,8 +72,9 @@ def parse_client(text, fn_names):
     out = {}
     for m in re.finditer(r"(#\[deprecated\(\s*note\s*=\s*\"((?:[^\"\\]|\\.)*)\"\s*\)\]\s*)?pub\s+(?:async\s+)?fn\s+(\w+)\s*(?:<[^>]*>)?\s*\(\s*&self[^{]*\{(.*?)\n    \}", text, re.S):
         mm = re.search(r"method_mut\(\)\s*=\s*conjure_http::private::http::Method::(\w+)", m.group(4))
+        ex = re.search(r"conjure_http::client::Endpoint::new\(\s*\"([^\"]*)\"\s*,\s*([\w:]+(?:\([^)]*\))?)\s*,\s*\"([^\"]*)\"\s*,\s*\"([^\"]*)\"\s*,?\s*\)", m.group(4))
         if mm and m.group(3) in fn_names:
-            out.setdefault(m.group(3), []).append({"method": mm.group(1), "note": m.group(2)})
+            out.setdefault(m.group(3), []).append({"method": mm.group(1), "note": m.group(2), "ext": list(ex.groups()) if ex else None})
     return out
 
 
@@ -143,6 +144,9 @@ def run(tier, seed):
         for s in gc:
             if s["method"] != c["client"]["method"]:
                 out.violation("X07:client-method:%s" % df["method"], "the client sends %s for a %s endpoint" % (s["method"], df["method"]), rep)
+            if s["ext"] is None or s["ext"][0] != "Att" or s["ext"][2] != name or s["ext"][3] != path_of(df["path"], k):
+                out.violation("X07:client-extension:%s" % ("missing" if s["ext"] is None else "service" if s["ext"][0] != "Att" else "name" if s["ext"][2] != name else "path"),
+                              "the client's Endpoint extension for %s %s is %s" % (name, path_of(df["path"], k), s["ext"]), rep)
             got_note = None if s["note"] is None else json.loads('"%s"' % s["note"])
             want_note = note(k) if df["deprecated"] else None
             if got_note != want_note:
